@@ -327,6 +327,8 @@ package state
 //@   ensures-trusted err == nil && d == nil ==> mapEq(GDeb, upd(old(GDeb), delegatorAddr, upd(old(GDeb)[delegatorAddr], escrowAddr, upd(old(GDeb)[delegatorAddr][escrowAddr], uint64(epoch), 0))))
 //@   ensures-trusted err == nil && d == nil ==> mapEq(GDebSum, upd(old(GDebSum), escrowAddr, old(GDebSum)[escrowAddr] - old(GDeb)[delegatorAddr][escrowAddr][uint64(epoch)]))
 //@   ensures-trusted err == nil ==> GWrites > old(GWrites)
+//@   precall KeyValueTree\)\.Remove$ :: d == nil
+//@   note the stored debonding delegation is removed only when the caller passes nil: any non-nil delegation - also one of zero shares - is MERGED into what is stored under the same (delegator, escrow, end epoch) key (seed C05_j removed the stored entry for a zero-share delegation: a dust reclaim deleted the shares of an earlier reclaim of the same epoch, the pool's debonding shares no longer matched the sum of the delegations)
 //@   precall (KeyValueTree\)\.(Insert|Remove)|\)\.Get)$ :: keyId(argAs[[]byte](1)) == keyOf(debondingDelegationKeyFmt, old(delegatorAddr), old(escrowAddr), uint64(epoch)) || (d != nil && keyId(argAs[[]byte](1)) == keyOf(debondingQueueKeyFmt, uint64(d.DebondEndTime), delegatorAddr, escrowAddr))
 //@   note partially verified: the state-tree KEY every read and write of this accessor goes to is checked (call-site obligation, key identity = key format and argument values); what the stored bytes mean (the ghost ledger clauses above, CBOR round trip) stays assumed (ensures-trusted)
 
